@@ -2553,3 +2553,29 @@ def gen_C20_model(quick, thorough):
 
 PROPS["C20"]["gen"] = gen_union(PROPS["C20"]["gen"], gen_C20_model(500, 1500))
 
+
+def representable_precision_ok(c):
+    """circumcentres / interpolation weights are numbers the scalar type can only hold to ulp(coordinate): the numeric clauses of C18 / C19
+    (tolerances relative to the size of a face) are only demanded when the largest coordinate magnitude is at most 2^39 (f32: 2^10) times the
+    smallest non-zero difference of two coordinates of the case"""
+    vals = set()
+    for o in c.ops:
+        for tok in o.split()[1:]:
+            if tok.isdigit() and len(tok) > 12:
+                x = gen.from_bits(int(tok))
+                if x == x and abs(x) != float("inf"):
+                    vals.add(x)
+    vals = sorted(vals)
+    diffs = [b - a for a, b in zip(vals, vals[1:]) if b > a]
+    if not diffs or not vals:
+        return True
+    lim = 2.0 ** 10 if c.scalar == "f32" else 2.0 ** 39
+    return max(abs(v) for v in vals) <= min(diffs) * lim
+
+for _p in ("C18", "C19"):
+    def _mk(gprev):
+        def g(r, tier):
+            return [c for c in gprev(r, tier) if representable_precision_ok(c)]
+        return g
+    PROPS[_p]["gen"] = _mk(PROPS[_p]["gen"])
+    PROPS[_p]["assumptions"] = PROPS[_p].get("assumptions", []) + ["numeric clauses are demanded only of cases whose largest coordinate magnitude is at most 2^39 (f32: 2^10) times the smallest non-zero coordinate difference (results are only representable to ulp(coordinate))"]
